@@ -1950,3 +1950,48 @@ func TestD53_TheNearestNameBeingProducedDecides(t *testing.T) {
 		}
 	}
 }
+
+// D54: regression of D53. The smaller discount for names from further out was
+// put on the edges from typed arguments only, "all other edges to a value are
+// not more expensive to begin with" -- but the edge from a named value without
+// subtype to the same-named value WITH a subtype costs as much as one from a
+// typed argument. One level below the parameter a, a converter taking a
+// explicitly (the documented priority: "conversion will favor any converters
+// that explicitly use the equivalent name") then lost against a type-only
+// converter when the supplied value carried a subtype -- on every tree before
+// D53 it had won in every call.
+type d54S string
+type d54T1 string
+type d54T2 string
+
+func TestD54_ExplicitNameConverterOneLevelDownWithSubtype(t *testing.T) {
+	h := func(in struct {
+		argmapper.Struct
+		M d54T1
+		X d54S `argmapper:",typeOnly"`
+	}) d54T2 {
+		return d54T2("h(" + string(in.M) + "," + string(in.X) + ")")
+	}
+	xA := func(in struct {
+		argmapper.Struct
+		A d54S
+	}) d54T1 {
+		return d54T1("xA(" + string(in.A) + ")")
+	}
+	y := func(s d54S) d54T1 { return d54T1("y(" + string(s) + ")") }
+	target := argmapper.MustFunc(argmapper.NewFunc(func(in struct {
+		argmapper.Struct
+		A d54T2
+	}) string {
+		return string(in.A)
+	}))
+	for i := 0; i < 300; i++ {
+		res, p := call(target, argmapper.NamedSubtype("a", d54S("a"), "s"), argmapper.Converter(h, xA, y))
+		if p != nil || res.Err() != nil {
+			t.Fatalf("%v %v", p, res.Err())
+		}
+		if got := res.Out(0).(string); got != "h(xA(a),a)" {
+			t.Fatalf("iteration %d: got %s, want h(xA(a),a): the converter that takes the name explicitly", i, got)
+		}
+	}
+}
